@@ -31,7 +31,7 @@ META = dict(
     property_id="C19", engine="tlc-concurrency",
     technique="TLC explores all interleavings of the caller model (and shows the broken variant fails); race-detector builds of the drivers run TLC-generated cases of every family (codec, conversions, identities, lists, QoS, PCO/PSI, UE policy, ciphering/MAC, IE accessors) from up to 64 goroutines and every per-goroutine trace is validated by TLC against the family's sequential specification",
     level=("exploration", "Schedules of the real code are sampled (goroutine counts, GOMAXPROCS, seeded offsets and yields), not enumerated: the Go scheduler is not controllable below call granularity. The race detector's happens-before analysis flags an unsynchronised shared access without needing the unlucky interleaving, and TLC judges every result of every goroutine against the sequential value.", "7/C19"),
-    level_note="Trusted: the Go race detector, TLC. Model-level exhaustiveness (all interleavings, 3 callers x 3 calls) is about the abstract caller model only. Hidden shared state that is properly synchronised and never influences a result is not observable. The race detector only sees accesses the harness does not itself order: the concurrent driver keeps mutexes, helper goroutines, encoding/json, fmt and reflect look-ups out of the phase in which the goroutines call the library; synchronisation the library itself performs on a path (logging, fmt, sync.Pool) can still hide an unsynchronised access next to it. Every operation kind of every family runs in every configuration; every IE accessor pair runs in the two-goroutine configuration, a seeded sample in the others. Stateful objects (NAS COUNT, identifier allocator, growing UE-policy objects) are outside: the property is about independent values.",
+    level_note="Trusted: the Go race detector, TLC. Model-level exhaustiveness (all interleavings, 3 callers x 3 calls) is about the abstract caller model only. Hidden shared state that is properly synchronised and never influences a result is not observable. The race detector only sees accesses the harness does not itself order: the concurrent driver keeps mutexes, helper goroutines, encoding/json, fmt and reflect look-ups out of the phase in which the goroutines call the library; synchronisation the library itself performs on a path (logging, fmt, sync.Pool) can still hide an unsynchronised access next to it. Every operation kind of every family runs in every configuration; every IE accessor pair runs in the two-goroutine configuration, a seeded sample in the others. Stateful objects (NAS COUNT, identifier allocator, growing UE-policy objects) are outside: the property is about independent values. Readers of a shared message treat what a read accessor returns as their own value (every multi-octet accessor of the library hands out a copy) and decipher it in place; the payloads of neighbouring goroutines lie back to back in one array (disjoint sub-slices of one buffer are distinct values).",
 )
 
 CONFIGS_Q = [(2, 16, 8), (8, 2, 2), (64, 16, 1), (16, 1, 1)]       # (goroutines, GOMAXPROCS, rounds)
